@@ -7,6 +7,10 @@ CONSTANTS
   BinForms = {"operator", "ufunc", "inplace", "out"}
   BinOpSet = {"add", "subtract", "maximum", "minimum", "less", "greater", "less_equal", "greater_equal", "equal", "not_equal"}
   ConvVias = {"in_units", "to", "convert_to_units", "to_value", "in_base"}
+  ChainP = {"", "m", "k"}
+  ChainTgt = {"K", "R", "degC", "degF", "mdegC"}
+  ChainDT = {"f8", "f4"}
+  ChainLen3 = TRUE
 INIT Init
 NEXT Next
 INVARIANT Export
